@@ -4,7 +4,7 @@ C01 part B2 — part 14: the inverse direction at the level of axis descriptions
 the split tensor `a'` has to satisfy relative to the block list of the combined tensor `r`; `split_entry`:
 then `a'[idx] = r[ix idx]`. `split_data_get`: the block `blk[beg : beg + shp].reshape(block shape)` entry-wise.
 -/
-namespace TenpyModel.C01B2
+namespace TenpyModel.C01B2.Comb
 open TenpyModel.Core TenpyModel.C01B
 
 variable {α : Type}
@@ -96,4 +96,4 @@ theorem split_data_get (lcs : List Leg) (hs : ∀ l ∈ lcs, l.Shape) (specs : L
   rfl
 
 end zero
-end TenpyModel.C01B2
+end TenpyModel.C01B2.Comb
